@@ -4,4 +4,4 @@
 From Coq Require Extraction.
 From Coq Require Import ExtrOcamlBasic.
 From RV Require Import Model.Run.
-Extraction "model.ml" run_line6.
+Extraction "model.ml" run_line7.
